@@ -330,7 +330,8 @@ def check(run):
     run.assumptions = ["inputs are sequences of Unicode scalar values (no lone surrogates in the raw text), length <= 400 (quick) / 5000 (thorough); "
                        "the deterministic quote-run lines are up to 660 characters, the strip-marker family up to ~450 and the long-digit family up to "
                        "~5100 characters in both tiers",
-                       "syntactic nesting <= 40, of the raw text and of the text after template expansion (deeper nesting exhausts the interpreter "
+                       "syntactic nesting <= 40, of the raw text, of the raw text with its <!-- comments --> removed (the parser strips them first, which glues "
+                       "the markup on both sides: '*#:;<!-- c -->*#:;' is a list prefix of length 8) and of the text after template expansion (deeper nesting exhausts the interpreter "
                        "stack by construction and is excluded by the property): a RecursionError on an input whose expanded text nests "
                        "deeper is counted as excluded, not as a violation",
                        "time budget 3 s + 2e-6 s*n^2 + 0.02 s*ndb CPU stands for 'polynomial, no blow-up' (n = max of raw length, expanded length and ndb = size of the "
